@@ -76,7 +76,7 @@ func VerifH_params() {
 	m := &method{desc: &fakeMethod{full: "vf.S.P", in: in, out: in}, name: "/vf.S/P"}
 	msg := newFakeMsg(in)
 	values := url.Values{}
-	kind := vfChoice(11)
+	kind := vfChoice(14)
 	var v1, v2 string
 	switch kind {
 	case 0:
@@ -106,12 +106,21 @@ func VerifH_params() {
 		values["mp.c"] = []string{"x"} // path through a map field
 	case 9:
 		key := vfAsciiString(1 + vfLen(3))
-		known := key == "a" || key == "n" || key == "e" || key == "list" || key == "sub" || key == "subs" || key == "mp" || key == "i"
+		known := key == "a" || key == "n" || key == "e" || key == "list" || key == "sub" || key == "subs" || key == "mp" || key == "i" || key == "bo" || key == "l" || key == "u"
 		vfAssume(!known)
 		for j := 0; j < len(key); j++ {
 			vfAssume(key[j] != '.')
 		}
 		values[key] = []string{"x"}
+	case 11:
+		v1 = vfAsciiString(1 + vfLen(4))
+		values["bo"] = []string{v1}
+	case 12:
+		v1 = vfAsciiString(1 + vfLen(3))
+		values["l"] = []string{v1}
+	case 13:
+		v1 = vfAsciiString(1 + vfLen(3))
+		values["u"] = []string{v1}
 	default:
 		v1 = vfAsciiString(1 + vfLen(3))
 		values["i"] = []string{v1}
@@ -180,6 +189,30 @@ func VerifH_params() {
 		vfCheck(err != nil, "unknown query parameter accepted")
 		vfCheck(msg.sets == 0, "unknown query parameter modified the message")
 		vfCover("unknown-key")
+	case 11:
+		t := refTrimJSONSpace(v1)
+		if t == "true" || t == "false" {
+			vfCheck(err == nil && msg.vals["bo"].Bool() == (t == "true"), "bool query parameter not converted to its value")
+			vfCover("bool")
+		} else {
+			vfCheck(err != nil, "text that is neither true nor false was accepted for a bool field")
+			vfCover("bool-rejected")
+		}
+	case 12:
+		if jn, ok := refJSONInt(v1); ok {
+			vfCheck(err == nil && int(msg.vals["l"].Int()) == jn, "int64 query parameter not converted to its value")
+			vfCover("int64")
+		} else {
+			vfCheck(err != nil, "text that is not a JSON integer was accepted for an int64 field")
+		}
+	case 13:
+		if jn, ok := refJSONInt(v1); ok && jn >= 0 && refTrimJSONSpace(v1)[0] != '-' {
+			vfCheck(err == nil && int(msg.vals["u"].Uint()) == jn, "uint32 query parameter not converted to its value")
+			vfCover("uint32")
+		} else {
+			vfCheck(err != nil, "text that is not a non-negative JSON integer was accepted for a uint32 field")
+			vfCover("uint32-rejected")
+		}
 	default:
 		if jn, ok := refJSONInt(v1); ok {
 			vfCheck(err == nil && int(msg.vals["i"].Int()) == jn, "int32 query parameter not converted to its value")
@@ -189,6 +222,16 @@ func VerifH_params() {
 			vfCover("int32-rejected")
 		}
 	}
+}
+
+func refTrimJSONSpace(s string) string {
+	for len(s) > 0 && (s[0] == ' ' || s[0] == '\t' || s[0] == '\n' || s[0] == '\r') {
+		s = s[1:]
+	}
+	for len(s) > 0 && (s[len(s)-1] == ' ' || s[len(s)-1] == '\t' || s[len(s)-1] == '\n' || s[len(s)-1] == '\r') {
+		s = s[:len(s)-1]
+	}
+	return s
 }
 
 // refJSONInt: the JSON number grammar restricted to integers (optional '-', no leading zeros, no
